@@ -282,15 +282,20 @@ def step (st : St) : List String → St × String
     let nb := ((Cartesian.neighbours g i).filter Option.isNone).length
     let nsS := " ".intercalate ns
     (st, s!"cart ngb {i.x} {i.y} {i.z} {nsS} #cart-ngb-boundary-{nb}")
-  | ["cart", "ray", px, py, pz, dx, dy, dz, tau, sh, she] =>
+  | ["cart", kind, px, py, pz, dx, dy, dz, tau, sh, she] =>
+    if kind != "ray" && kind != "reray" then (st, "bad-op") else
     let g := st.cart
     let d : GridNum.V3 Float := ⟨flt! dx, flt! dy, flt! dz⟩
-    let inv : GridNum.V3 Float := ⟨1.0 / d.x, 1.0 / d.y, 1.0 / d.z⟩
+    -- `ray`: freshly constructed photon; `reray`: a photon that was constructed with another
+    -- direction and redirected with `set_direction` (re-emission / scattering)
+    let ph : Cartesian.PhotonDir Float :=
+      if kind == "ray" then Cartesian.PhotonDir.new d
+      else (Cartesian.PhotonDir.new (⟨d.z, d.x, d.y⟩ : GridNum.V3 Float)).setDirection d
     let sH := flt! sh
     let sHe := flt! she
     let m : Cartesian.Medium Float := ⟨sH, sHe, fun c => Ca.tableAt st.dtab c 0,
       fun c => Ca.tableAt st.xtab c 0, fun c => Ca.tableAt st.xtab c 1⟩
-    let r := Cartesian.interact Ca.dblMax g m ⟨flt! px, flt! py, flt! pz⟩ d inv (flt! tau) 200000
+    let r := Cartesian.interactPhoton Ca.dblMax g m ⟨flt! px, flt! py, flt! pz⟩ ph (flt! tau) 200000
     if !r.finished then (st, "cart ray fuel-out") else
     let js := (Ca.sortByCell (Ca.accumulate m r.path)).filter (fun e => e.2 != 0.0)
     let total := js.foldl (fun a e => a + e.2) 0.0
@@ -309,6 +314,7 @@ def step (st : St) : List String → St × String
       (a.x - b.x).natAbs > 1 || (a.y - b.y).natAbs > 1 || (a.z - b.z).natAbs > 1)
     let extra := (if r.od == 0.0 then " #cart-tau-exactly-zero" else "") ++ (if diag then " #cart-edge-or-corner-crossing" else "")
       ++ (if wrapd then " #cart-periodic-wrap" else "") ++ (if r.od < 0.0 then " #cart-corrected-last-step" else "")
+      ++ (if kind == "reray" then " #cart-redirected-photon" else "")
     (st, s!"{shownS} #cart-{tag}{extra}")
   | "pl" :: "new" :: npc :: n :: ax :: ay :: az :: sx :: sy :: sz :: rest =>
     let _ := npc
@@ -365,7 +371,9 @@ def step (st : St) : List String → St × String
   | ["amrd", "loc", px, py, pz] =>
     let r := AMRT.locate st.ad ⟨flt! px, flt! py, flt! pz⟩
     (st, s!"amrd loc {AMRT.keyOf r} #amrd-depth-{r.path.length}")
-  | ["amrd", "ray", px, py, pz, dx, dy, dz, tau, sh] =>
+  | ["amrd", kind, px, py, pz, dx, dy, dz, tau, sh] =>
+    -- `reray`: the photon was redirected with `set_direction` (the AMR traversal reads the direction only)
+    if kind != "ray" && kind != "reray" then (st, "bad-op") else
     let G := st.ad
     let sH := flt! sh
     let m : AMRT.Medium Float := ⟨sH, fun k => Ad.tabAt st.add k, fun k => Ad.tabAt st.adx k⟩
@@ -384,7 +392,10 @@ def step (st : St) : List String → St × String
     let tag := (if r.cell.isSome then "absorbed" else "escaped") ++ (if r.path.length ≤ 1 then "-1cell" else "-multi")
     let extra := (if lvchg then " #amrd-level-change" else "") ++ (if wrapd then " #amrd-periodic-wrap" else "")
       ++ (if r.od < 0.0 then " #amrd-corrected-last-step" else "") ++ (if r.od == 0.0 then " #amrd-tau-exactly-zero" else "")
+      ++ (if kind == "reray" then " #amrd-redirected-photon" else "")
     (st, s!"{line} #amrd-{tag}{extra}")
+  -- VoronoiDensityGrid has no model (C15 not applicable): the implementation is judged by oracles only
+  | "vor" :: _ => (st, "vor oracle-only")
   | _ => (st, "bad-op")
 
 def main : IO Unit := runDriver step ({} : St)
